@@ -89,7 +89,7 @@ fn first_diff(a: &[u8], b: &[u8]) -> String {
 // ------------------------------------------------------------------------------------------------
 // recipes: (kind, seed) -> bytes.  Everything random derives from the seed; nothing from the environment.
 
-const KINDS: [&str; 10] = ["mock", "gpos", "gsub", "gvar", "ivs", "classdef", "iup", "font", "subset", "mockbig"];
+const KINDS: [&str; 11] = ["mock", "gpos", "gsub", "gvar", "ivs", "classdef", "iup", "font", "subset", "mockbig", "spacefam"];
 
 #[derive(Clone, Debug)]
 struct Recipe {
@@ -104,7 +104,7 @@ impl Recipe {
 }
 
 fn recipes(cfg_seed: u64, thorough: bool) -> Vec<Recipe> {
-    let per_kind: &[(usize, usize)] = &[(120, 1200), (40, 300), (30, 200), (40, 300), (40, 300), (50, 400), (30, 300), (20, 150), (40, 300), (60, 500)];
+    let per_kind: &[(usize, usize)] = &[(120, 1200), (40, 300), (30, 200), (40, 300), (40, 300), (50, 400), (30, 300), (20, 150), (40, 300), (60, 500), (120, 1000)];
     let mut out = vec![];
     for (k, kind) in KINDS.iter().enumerate() {
         let n = if thorough { per_kind[k].1 } else { per_kind[k].0 };
@@ -129,6 +129,7 @@ fn compile_inner(r: &Recipe) -> Vec<u8> {
     match r.kind {
         "mock" => mock_graph(&mut rng, false),
         "mockbig" => mock_graph(&mut rng, true),
+        "spacefam" => space_family(&mut rng),
         "gpos" => gpos(&mut rng),
         "gsub" => gsub(&mut rng),
         "gvar" => gvar(&mut rng),
@@ -205,6 +206,96 @@ fn mock_spec(rng: &mut Rng, big: bool) -> (Vec<NodeSpec>, usize) {
         specs.push(NodeSpec { bytes, links, burn_ids });
     }
     (specs, 0)
+}
+
+/// Graphs aimed at `assign_spaces_hb` / `isolate_subgraph_hb` / `duplicate_subgraph` / `try_isolating_subgraphs`:
+/// a root with 32-bit links to several space roots, some of which ALSO have a 16-bit parent (the space root itself is
+/// duplicated), children shared between space roots and with the 16-bit world (duplicated during isolation, several
+/// per call), and enough bulk per space that the space overflows again and half of its roots must be moved.
+fn space_family(rng: &mut Rng) -> Vec<u8> {
+    let k = rng.range(2, 7) as usize; // space roots
+    let n_shared = rng.range(1, 5) as usize;
+    let n_own = rng.range(0, 3) as usize;
+    // index plan: 0 root, 1 = X (a 16-bit parent in space 0), 2..2+k space roots, then shared children, then own children
+    let first_root = 2;
+    let first_shared = first_root + k;
+    let first_own = first_shared + n_shared;
+    let total = first_own + k * n_own;
+    let mut targets: Vec<Vec<(usize, u8)>> = vec![vec![]; total];
+    targets[0].push((1, 2));
+    for r in 0..k {
+        targets[0].push((first_root + r, 4));
+        if rng.chance(1, 3) {
+            targets[1].push((first_root + r, 2)); // narrow parent as well: the space root gets duplicated
+        }
+        if rng.chance(1, 6) {
+            targets[0].push((first_root + r, 4)); // a second wide link
+        }
+        for c in 0..n_shared {
+            if rng.chance(2, 3) {
+                targets[first_root + r].push((first_shared + c, if rng.chance(1, 5) { 4 } else { 2 }));
+            }
+        }
+        for c in 0..n_own {
+            targets[first_root + r].push((first_own + r * n_own + c, 2));
+        }
+    }
+    for c in 0..n_shared {
+        if rng.chance(1, 2) {
+            targets[1].push((first_shared + c, 2)); // shared with the 16-bit world
+        }
+        if c + 1 < n_shared && rng.chance(1, 3) {
+            targets[first_shared + c].push((first_shared + c + 1, 2));
+        }
+    }
+    // every node needs a parent: unreferenced shared children hang off X
+    let mut referenced = vec![false; total];
+    referenced[0] = true;
+    for ts in &targets {
+        for (t, _) in ts {
+            referenced[*t] = true;
+        }
+    }
+    for i in 1..total {
+        if !referenced[i] {
+            targets[1].push((i, 2));
+        }
+    }
+    let bulk = *rng.pick(&[9_000usize, 17_000, 23_000, 31_000, 40_000]);
+    let mut specs = vec![];
+    for i in 0..total {
+        if rng.chance(1, 2) {
+            rng.shuffle(&mut targets[i]);
+        }
+        let mut links = vec![];
+        let mut pos = 0u32;
+        for &(target, width) in &targets[i] {
+            links.push(LinkSpec { pos, width, target, adjustment: 0 });
+            pos += width as u32;
+        }
+        let extra = if i >= first_shared {
+            if rng.chance(3, 4) { bulk + rng.range(0, 3000) as usize } else { rng.range(0, 200) as usize }
+        } else {
+            rng.range(0, 40) as usize
+        };
+        let mut bytes = vec![0u8; pos as usize + extra];
+        for (j, b) in bytes.iter_mut().enumerate().take(48) {
+            *b = (i as u8).wrapping_mul(37).wrapping_add(j as u8);
+        }
+        specs.push(NodeSpec { bytes, links, burn_ids: if rng.chance(1, 5) { rng.below(4) as u32 } else { 0 } });
+    }
+    let mut g = VGraph::new(&specs, 0);
+    let out = match g.dump() {
+        Some(b) => b,
+        None => b"PACKFAIL".to_vec(),
+    };
+    // statistics only (never compared): how far packing had to go
+    SPACEFAM_STATS.with(|c| c.set((g.object_count() as u32, total as u32, g.next_space())));
+    out
+}
+
+thread_local! {
+    static SPACEFAM_STATS: std::cell::Cell<(u32, u32, u32)> = const { std::cell::Cell::new((0, 0, 0)) };
 }
 
 fn mock_graph(rng: &mut Rng, big: bool) -> Vec<u8> {
@@ -754,6 +845,48 @@ fn graph_cases(s: &mut Session, rng: &mut Rng, g: &mut VGraph, tag: &str) {
     }
 }
 
+/// The store `TableWriter` builds is a function of (the value, the ids drawn in order): derive the id-free template
+/// from one compilation of `table`, compile it AGAIN while another thread draws ids concurrently, and let the model
+/// instantiate the template with the second run's ids.
+fn inst_case<T: write_fonts::FontWrite>(s: &mut Session, table: &T, first: &VGraph) {
+    let objs1 = first.objects();
+    let rank: HashMap<u64, usize> = objs1.iter().enumerate().map(|(i, o)| (o.id, i)).collect();
+    let tmpl: Vec<String> = objs1
+        .iter()
+        .map(|o| {
+            let links: Vec<(u32, u8, u64, u32)> = o.links.iter().map(|(p, w, t, a)| (*p, *w, rank[t] as u64, *a)).collect();
+            obj_token(0, &o.bytes, &links)
+        })
+        .collect();
+    let stop = Arc::new(std::sync::atomic::AtomicBool::new(false));
+    let stop2 = stop.clone();
+    let started = Arc::new(std::sync::atomic::AtomicBool::new(false));
+    let started2 = started.clone();
+    let burner = std::thread::spawn(move || {
+        let mut n = 0u64;
+        while !stop2.load(std::sync::atomic::Ordering::Relaxed) && n < 2_000_000 {
+            hooks::next_raw_id();
+            started2.store(true, std::sync::atomic::Ordering::Relaxed);
+            n += 1;
+        }
+        n
+    });
+    while !started.load(std::sync::atomic::Ordering::Relaxed) {
+        std::hint::spin_loop();
+    }
+    let second = VGraph::from_table(table);
+    stop.store(true, std::sync::atomic::Ordering::Relaxed);
+    let burned = burner.join().unwrap();
+    let objs2 = second.objects();
+    let ids2: Vec<u64> = objs2.iter().map(|o| o.id).collect();
+    let gaps = ids2.windows(2).filter(|w| w[1] != w[0] + 1).count();
+    s.count(if gaps > 0 { "inst:ids-interleaved-with-other-thread" } else { "inst:ids-contiguous" });
+    let _ = burned;
+    let resp = objs2.iter().map(|o| obj_token(o.id, &o.bytes, &o.links)).collect::<Vec<_>>().join(" ");
+    let ids_s = ids2.iter().map(|x| x.to_string()).collect::<Vec<_>>().join(",");
+    s.case("inst", format!("inst {ids_s} {}", tmpl.join(" ")), resp);
+}
+
 fn run(cfg: &Config, s: &mut Session) {
     let thorough = cfg.thorough();
     let mut rng = Rng::new(cfg.seed ^ 0xC07);
@@ -832,8 +965,11 @@ fn run(cfg: &Config, s: &mut Session) {
         let lookup = PositionLookup::Single(lb.build(&mut vs));
         let table = Gpos::new(ScriptList::default(), FeatureList::default(), LookupList::new(vec![lookup.clone(), lookup]));
         let mut g = VGraph::from_table(&table);
+        inst_case(s, &table, &g);
         graph_cases(s, &mut rng, &mut g, "gpos");
-        let mut g2 = VGraph::from_table(&b.build());
+        let cd = b.build();
+        let mut g2 = VGraph::from_table(&cd);
+        inst_case(s, &cd, &g2);
         graph_cases(s, &mut rng, &mut g2, "classdef");
     }
 
@@ -878,8 +1014,11 @@ fn run(cfg: &Config, s: &mut Session) {
             "bytes"
         };
         s.count(&format!("recipe:{}:{}", r.kind, outcome));
-        if b.len() > 65535 {
-            s.count(&format!("recipe:{}:over64k", r.kind));
+        if r.kind == "spacefam" {
+            let _ = compile(r);
+            let (objs, specs, spaces) = SPACEFAM_STATS.with(|c| c.get());
+            s.count(&format!("spacefam:spaces-assigned={}", spaces.saturating_sub(2).min(5)));
+            s.count(&format!("spacefam:objects-duplicated={}", match objs.saturating_sub(specs) { 0 => "0", 1 => "1", 2..=4 => "2-4", _ => "5+" }));
         }
     }
     let base_sig: Vec<String> = base.iter().map(|b| sig(b)).collect();
